@@ -4,13 +4,13 @@ func init() {
 	plans["C06"] = Plan{
 		Jobs: []Job{
 			{Workload: "C06.chains", Mode: "plain", QuickB: 16, ThoroughB: 16},
-			{Workload: "C06.zeroslash", Mode: "plain", QuickB: 2, ThoroughB: 4},
+			{Workload: "C06.zeroslash", Mode: "plain", QuickB: 4, ThoroughB: 8},
 			{Workload: "C06.chains", Mode: "race", QuickB: 4, ThoroughB: 8, ThoroughOnly: true},
 		},
-		Level: "exploration",
-		Rule: "C06.chains: PRNG-generated chains (4 genesis presets of 3-6 validators of mixed roles/statuses, funded/dry/empty rewards pool; transfers, contract creations/calls incl. reverting, nested-failing, self-destructing, refund-earning and log-emitting ones, all nine staking actions valid and invalid, skipped transactions of every dispatch class, silent chamber validators (inactivity slashing), forged BLS double-sign evidences) of 176-208 blocks (thorough: up to 592) = 11-13 staking periods, built block by block by a transcription of miner/worker.go on node A. Every block: (a) re-executed k=3 (thorough 10) times through StateProcessor.Process on fresh state objects of the parent: three roots, receipts RLP incl. the module receipt, receipt root, bloom, gas used, logs must equal the builder's and each other; (b) InsertChain on independent node B must accept it unchanged (error / ignored block / other head = violation), stored receipts and a node-by-node enumeration of the three tries through both databases must agree; (c) the whole chain is batch-imported by a third node; C08 invariants on builder post state, importer head state and look-back reader of every block (classes c08:...). C06.zeroslash: scripted mini-chains with a double-sign evidence against a validator whose penalty rounds to zero. distinct_nontrivial = distinct (scenario, set of tx kind:outcome and skip reasons, slashdata) signatures.",
+		Level:       "exploration",
+		Rule:        "C06.chains: PRNG-generated chains (4 genesis presets of 3-6 validators of mixed roles/statuses, funded/dry/empty rewards pool; transfers, contract creations/calls incl. reverting, nested-failing, self-destructing, refund-earning and log-emitting ones, all nine staking actions valid and invalid, skipped transactions of every dispatch class, silent chamber validators (inactivity slashing), forged BLS double-sign evidences) of 176-208 blocks (thorough: up to 592) = 11-13 staking periods, built block by block by a transcription of miner/worker.go on node A. Every block: (a) re-executed k=3 (thorough 10) times through StateProcessor.Process on fresh state objects of the parent: three roots, receipts RLP incl. the module receipt, receipt root, bloom, gas used, logs must equal the builder's and each other; (b) InsertChain on independent node B must accept it unchanged (error / ignored block / other head = violation), stored receipts and a node-by-node enumeration of the three tries through both databases must agree; (c) the whole chain is batch-imported by a third node; C08 invariants on builder post state, importer head state and look-back reader of every block (classes c08:...). C06.zeroslash: scripted mini-chains (minimal witnesses): a double-sign evidence against a House validator of 1..49 LU (penalty rounds to zero) resp. 50..99 LU (penalty 1 LU, stake 0), and the sequence: operator withdraws all but 10 YOU of the self token, then a delegator unbinds 100 YOU in the same period. distinct_nontrivial = distinct (scenario, set of tx kind:outcome and skip reasons, slashdata) signatures.",
 		Explanation: "held = on the executions of this run every repetition reproduced the builder's commitments and the importer accepted every built block with an identical state",
 		Assumptions: []string{"the block builder is a line-by-line transcription of miner/worker.go with the tx pool replaced by an ordered list (price ties in the real heap are broken by map order) and wall-clock time by a logical timestamp", "the neutral engine (solo) accepts every header: consensus rules are not the subject", "repetitions are in-process (Go randomises map iteration per range statement); cross-process repetitions with different GOMAXPROCS are not run"},
-		Require:     map[string]int64{"blocks_built": 4000, "blocks_imported": 4000, "determinism_repetitions": 12000, "periods_crossed": 250, "third_node_chains": 10, "c08_block_checks": 4000, "tx_stk.create_ok": 20, "tx_stk.dlgadd_ok": 50, "tx_stk.withdraw_ok": 20, "tx_stk.dlgsub_ok": 10, "tx_evm.call.store_ok": 20},
+		Require:     map[string]int64{"blocks_built": 4000, "blocks_imported": 4000, "determinism_repetitions": 12000, "periods_crossed": 250, "third_node_chains": 10, "c08_block_checks": 4000, "tx_stk.create_ok": 20, "tx_stk.dlgadd_ok": 50, "tx_stk.withdraw_ok": 20, "tx_stk.dlgsub_ok": 10, "tx_evm.call.store_ok": 20, "evidences_posted": 10, "blocks_with_slashdata": 10},
 	}
 }
